@@ -1,5 +1,5 @@
 (* C14 — The builder does each piece of work once. *)
-From Slug Require Import Base.Str Bundle.Versions Bundle.Builder Bundle.BuilderProofs.
+From Slug Require Import Base.Str Bundle.Versions Bundle.Builder Bundle.BuilderProofs Bundle.BuilderTrace.
 
 (* In every run (error-free or not, any graph shape: diamonds, self references,
    cycles), the log of dependency-analysis calls is exactly the list of analysed
@@ -23,6 +23,66 @@ Theorem C14_fetch_once :
 Proof.
   intros fuel w ops st outs Htot Hr.
   exact (fetch_once fuel w Htot ops init_state st outs fetch_inv_init Hr).
+Qed.
+
+(* Where the registry never fails, the version list of each registry package is
+   requested exactly once and the source address of each selected version is
+   requested exactly once: the logs of those calls are the key lists of the two
+   registry tables, which have no repetition. *)
+Theorem C14_registry_once :
+  forall fuel w ops st outs,
+    (forall p, w_versions w p <> None) -> (forall p v, w_source w p v <> None) ->
+    run_ops fuel w init_state ops = (st, outs) ->
+    NoDup (map fst (vcache st)) /\ versions_log st = map CVersions (map fst (vcache st)) /\
+    NoDup (map fst (resolved st)) /\
+    source_log st = map (fun k => CSource (fst k) (snd k)) (map fst (resolved st)).
+Proof.
+  intros fuel w ops st outs Hv Hs Hr.
+  exact (registry_once w Hv Hs fuel ops init_state st outs registry_inv_init Hr).
+Qed.
+
+(* The trace, in every run (failing fetches and registry calls, errors, any
+   graph shape, any sequence of Add calls): read in time order, every 'start'
+   event is immediately followed by its own success or failure event and by
+   nothing else, and every 'already' event has the success of the same piece of
+   work among the events before it. *)
+Theorem C14_trace_start_then_outcome :
+  forall fuel w ops st outs,
+    run_ops fuel w init_state ops = (st, outs) ->
+    forall newer older e, trace st = newer ++ e :: older ->
+      match e with
+      | EVersionsStart p => exists n, newer = n ++ [EVersionsSuccess p] \/ newer = n ++ [EVersionsFailure p]
+      | ESourceStart p v => exists n, newer = n ++ [ESourceSuccess p v] \/ newer = n ++ [ESourceFailure p v]
+      | EDownloadStart p => exists n, newer = n ++ [EDownloadSuccess p] \/ newer = n ++ [EDownloadFailure p]
+      | _ => True
+      end.
+Proof.
+  intros fuel w ops st outs Hr.
+  exact (wf_trace_start_followed _ (proj1 (trace_well_formed w fuel ops init_state st outs trace_inv_init Hr))).
+Qed.
+
+Theorem C14_trace_already_after_success :
+  forall fuel w ops st outs,
+    run_ops fuel w init_state ops = (st, outs) ->
+    forall newer older e, trace st = newer ++ e :: older ->
+      match e with
+      | EVersionsAlready p => In (EVersionsSuccess p) older
+      | ESourceAlready p v => In (ESourceSuccess p v) older
+      | EDownloadAlready p => In (EDownloadSuccess p) older
+      | _ => True
+      end.
+Proof.
+  intros fuel w ops st outs Hr.
+  exact (wf_trace_already _ (proj1 (trace_well_formed w fuel ops init_state st outs trace_inv_init Hr))).
+Qed.
+
+(* success and failure events only ever follow their own start (the converse bracket) *)
+Theorem C14_trace_is_bracketed :
+  forall fuel w ops st outs,
+    run_ops fuel w init_state ops = (st, outs) -> wf_trace (trace st).
+Proof.
+  intros fuel w ops st outs Hr.
+  exact (proj1 (trace_well_formed w fuel ops init_state st outs trace_inv_init Hr)).
 Qed.
 
 (* Together with C08_build_is_closure: in an error-free build the analysed set
@@ -65,8 +125,24 @@ Example C14_cycle_terminates :
   forallb ok_outcome outs = true /\ length (analyzed st) = 2 /\ length (fetch_log st) = 2.
 Proof. vm_compute. repeat split. Qed.
 
+(* a registry world with a diamond: two sources of one registry package *)
+Example C14_registry_instance :
+  let w := {| w_fetch := fun p => Some (0%N, None);
+              w_versions := fun _ => Some [(mkV 1 0 0 [] [], None)];
+              w_source := fun _ _ => Some (s2l "git::https://example.com/r.git", []);
+              w_deps := fun c sub f => ([], []);
+              w_allowed := fun _ _ => true |} in
+  let '(st, outs) := run_ops 40 w init_state
+       [AddRegistry (s2l "example.com/a/b/c") [] 0%N 0%N; AddRegistry (s2l "example.com/a/b/c") (s2l "sub") 0%N 0%N; Close] in
+  forallb ok_outcome outs = true /\ length (versions_log st) = 1 /\ length (source_log st) = 1 /\ length (trace st) = 9.
+Proof. vm_compute. repeat split. Qed.
+
 Print Assumptions C14_drain_terminates.
 Print Assumptions C14_measure_bound.
 Print Assumptions C14_analyse_once.
 Print Assumptions C14_fetch_once.
 Print Assumptions C14_exactly_the_reachable_set.
+Print Assumptions C14_registry_once.
+Print Assumptions C14_trace_start_then_outcome.
+Print Assumptions C14_trace_already_after_success.
+Print Assumptions C14_trace_is_bracketed.
